@@ -16,10 +16,12 @@ import (
 
 // EnsureDirExists creates directories if the path not exists
 func EnsureDirExists(path string) error {
-	if _, err := os.Stat(path); os.IsNotExist(err) {
-		return os.MkdirAll(path, dirPerm)
+	if err := os.MkdirAll(filepath.Dir(path), dirPerm); err != nil {
+		return err
 	}
-	return os.ErrExist
+	// mkdir is atomic: of several concurrent creators exactly one succeeds,
+	// the others get an error satisfying os.IsExist
+	return os.Mkdir(path, dirPerm)
 }
 
 // CreateV1ControllerPath create path for controller with given group, prefix
